@@ -306,7 +306,7 @@ impl Prop for C03 {
         }
     }
     fn rule(&self) -> String {
-        "generated: stream size (1-2 pages of u32), producer plan [(fill k, commit n<=k)], consumer plan [(need, consume m)], tag density, and a scheduler decision stream; producer and consumer are harness tasks using only the public stream API (free, wait, write_buf, produce, read_buf, consume, eof) with extra scheduling points while a window is being filled/read. One case = one execution on the shuttle runtime through the verif sync shim. Oracle (history invariant): every read window shows exactly the next committed values (nothing torn, stale, duplicated, skipped), tags sit on their samples and, over every consumed stretch, are exactly the producer's (none lost, none twice), totals match after the producer left; every window acquisition is checked against all live windows of the other side for disjointness in ring coordinates (pointer -> ring offset). Thorough adds a real-thread run (std primitives, two OS threads, millions of samples through a 1-page stream). Non-trivial: >= 2 window acquisitions while a window of the other side was live, and the stream wrapped; distinct = hash of (scenario, decisions).".into()
+        "generated: stream size (1-2 pages of u32), producer plan [(fill k, commit n<=k)], consumer plan [(need, consume m)], tag density, and a scheduler decision stream; producer and consumer are harness tasks using only the public stream API (free, wait, write_buf, produce, read_buf, consume, eof) with extra scheduling points while a window is being filled/read. One case = one execution on the shuttle runtime through the verif sync shim. Oracle (history invariant): every read window shows exactly the next committed values (nothing torn, stale, duplicated, skipped), tags sit on their samples and, over every consumed stretch, are exactly the producer's (none lost, none twice), totals match after the producer left; every window acquisition is checked against all live windows of the other side for disjointness in ring coordinates (pointer -> ring offset). A real-thread run (std primitives, two OS threads, 4e5 / 2e7 samples through a 1-page stream) checks the data and that free() <= window <= free() around every window acquisition of the producer. Non-trivial: >= 2 window acquisitions while a window of the other side was live, and the stream wrapped; distinct = hash of (scenario, decisions).".into()
     }
     fn assumptions(&self) -> Vec<String> {
         vec![
@@ -323,11 +323,21 @@ impl Prop for C03 {
         rustradio::verif::set_stream_size(None);
         let err: Arc<Mutex<Option<String>>> = Arc::new(Mutex::new(None));
         let e2 = err.clone();
+        let e3 = err.clone();
         let prod = std::thread::spawn(move || {
             let mut r = XRng::new(seed ^ 0x9d);
             let mut sent = 0u64;
             while sent < total {
+                // free-space queries are atomic with commits and consumes: between two queries
+                // without a commit of its own, the producer's window lies between them (the
+                // consumer can only add room)
+                let f1 = ws.free();
                 let mut wb = ws.write_buf().unwrap();
+                let f2 = ws.free();
+                if !(f1 <= wb.len() && wb.len() <= f2) {
+                    *e3.lock().unwrap() = Some(format!("free() said {f1}, then the write window had {} slots, then free() said {f2} (no commit in between)", wb.len()));
+                    return;
+                }
                 if wb.is_empty() {
                     drop(wb);
                     if ws.wait(1) {
@@ -375,7 +385,8 @@ impl Prop for C03 {
         ev.nontrivial_hashes.insert(hash_json(&cj));
         ev.notes.insert("real_thread_run".into(), json!({"samples": total, "received": got, "wall_s": t0.elapsed().as_secs_f64()}));
         if let Some(e) = err.lock().unwrap().clone() {
-            ev.failures.push((Failure { sig: "C03/real-threads/data".into(), msg: e }, cj));
+            let sig = if e.starts_with("free()") { "C03/real-threads/free-not-atomic" } else { "C03/real-threads/data" };
+            ev.failures.push((Failure { sig: sig.into(), msg: e }, cj));
         } else if got != total {
             ev.failures.push((Failure { sig: "C03/real-threads/count".into(), msg: format!("sent {total}, received {got}") }, cj));
         }
